@@ -24,6 +24,12 @@ def obsField (c : Case) (k : String) : String :=
   | some t => (t.drop (k.length + 1)).toString
   | none => ""
 
+/-- the default validation of the build that produced the observation (falls back to the input's `dm`) -/
+def modeOfCase (c : Case) : Mode × String :=
+  let o := obsField c "dm"
+  let t := if o == "" then c.get "dm" else o
+  (Driver.Fmt.modeOfTok t, t)
+
 def knownPad : String := "C17-wide-nonascii-append-char"
 def knownCut : String := "C17-wide-chunk-inside-character"
 
@@ -47,7 +53,7 @@ def wideTok (w : Nat) (o : Outcome (List Nat)) : String :=
 
 def handleFmt (c : Case) : Verdict :=
   let obs := Driver.Fmt.normObs (obsString c)
-  let m := Driver.Fmt.modeOfTok (c.get "dm")
+  let (m, dmS) := modeOfCase c
   let fs := c.get "fmt"
   let fmt : Option (List Nat) := if fs == "N" then none else some (parseUnits 8 fs)
   let tbl := Driver.Fmt.parseFloatTable (c.get "fr")
@@ -58,9 +64,9 @@ def handleFmt (c : Case) : Verdict :=
   match run fmt args with
   | .ok ev =>
     let mf := stringSink (.utf8 m) ev
+    let mw := wideTok 32 (wideSink .utf32 m ev); let mh := wideTok 16 (wideSink .utf16 m ev)
     let ms := "f=" ++ tokOutcome 8 mf ++ " p=" ++ tokOutcome 8 (.ok (fileSink ev)) ++ " o=" ++ tokOutcome 8 (.ok (ostreamSink ev)) ++
-      " l=" ++ tokOutcome 8 (stringSink .latin1 ev) ++ " w=" ++ wideTok 32 (wideSink .utf32 m ev) ++
-      " h=" ++ wideTok 16 (wideSink .utf16 m ev) ++ " u=" ++ wideTok 32 (wideSink .utf32 m ev)
+      " l=" ++ tokOutcome 8 (stringSink .latin1 ev) ++ " w=" ++ mw ++ " h=" ++ mh ++ " u=" ++ mw ++ " dm=" ++ dmS
     -- the property, judged on the implementation's own outputs
     let f := obsField c "f"; let p := obsField c "p"; let o := obsField c "o"; let l := obsField c "l"
     let w := obsField c "w"; let h := obsField c "h"; let u := obsField c "u"
@@ -80,7 +86,9 @@ def handleFmt (c : Case) : Verdict :=
       let accepted := f.startsWith "ok:"
       let wideOk := wideOk || !accepted
       let spec := narrowOk && formatOk && latinOk && wideOk
-      let known := if narrowOk && formatOk && latinOk && !wideOk then
+      -- a recorded finding is the recorded behaviour (what the unchanged model predicts) on an input of its class; any
+      -- other failure of the wide clause, inside the class or not, is reported
+      let known := if narrowOk && formatOk && latinOk && !wideOk && w == mw && h == mh && u == mw then
           (if nonAsciiPad ev then knownPad else if chunkCut ev then knownCut else "") else ""
       let why :=
         if !narrowOk then "FILE* and narrow ostream outputs differ"
@@ -140,11 +148,11 @@ def handleExt (c : Case) : Verdict :=
   let t := c.get "t"
   let T : Enc := if t == "c" then .utf8 else .utf32
   let w := widthOfT t
-  let m := Driver.Fmt.modeOfTok (c.get "dm")
+  let (m, dmS) := modeOfCase c
   let input := parseUnits w (c.get "in")
-  let ms := String.intercalate " " (extLoop T m w 12 input)
+  let ms := String.intercalate " " (extLoop T m w 12 input) ++ " dm=" ++ dmS
   -- judged on the observation: each ST::string is the observed std token under the default validation
-  let groups := c.obs
+  let groups := c.obs.filter fun g => !g.startsWith "dm="
   let specOk := !groups.isEmpty && groups.all fun g =>
     match g.splitOn "/" with
     | [tokS, res, st] =>
